@@ -12,6 +12,7 @@ from argparse import Namespace
 from pathlib import Path
 
 import numpy as np
+from incomplete_cooperative.generators import GENERATORS
 
 import drvlib as D
 import incomplete_cooperative.run.best_states as BS
@@ -167,7 +168,7 @@ def save_trace(tid, rng, root: Path, nsaves):
     return {"tid": tid, "kind": "saves", "init": [], "events": events}
 
 
-def command_trace(tid, rng, root: Path, seed):
+def command_trace(tid, rng, root: Path, seed, light_gens=None):
     """solve / greedy / best_states run in-process on n=3; what they hand to save() and what evaluate()/the search produced is captured."""
     shutil.rmtree(root, ignore_errors=True)
     root.mkdir(parents=True)
@@ -180,6 +181,9 @@ def command_trace(tid, rng, root: Path, seed):
     def fake_save(model_path, unique_name, output):     # records what the command hands over (before any saver runs), then the real save()
         captured["output"] = output
         captured["snapshot"] = (np.array(output.data, dtype=np.float64, copy=True), np.array(output.actions, dtype=np.float64, copy=True))
+        if light_gens is not None:                       # the sweep over the generator registry writes data.json only (no plots)
+            save_json(model_path / "data.json", unique_name, output)
+            return
         try:
             save(model_path, unique_name, output)
         except FileExistsError:
@@ -196,18 +200,26 @@ def command_trace(tid, rng, root: Path, seed):
     SO.save = GR.save = BS.save = fake_save
     SO.evaluate, GR.get_greedy_rewards, BS.get_best_exploitability = cap(real_eval, "eval"), cap(real_greedy, "greedy"), cap(real_best, "best")
     try:
-        for j in range(5):
-            cmd = ["solve", "greedy", "best_states", "solve", "best_states"][j]
-            name = f"{cmd}{j}" if j != 3 else "solve0"          # the fourth one repeats a name
+        for j in range(5 if light_gens is None else len(light_gens)):
+            cmd = ["solve", "greedy", "best_states", "solve", "best_states"][j] if light_gens is None else "solve"
+            name = f"{cmd}{j}" if (j != 3 or light_gens is not None) else "solve0"          # the fourth one repeats a name
             gen = rng.choice(["factory", "noisy_factory", "graph_random", "xos"])
-            if j == 4:
+            if j in (0, 3):
+                # the solve command on ANY registered generator (seed C19-f: a shortcut keyed on the generator's name), several repetitions
+                gen = rng.choice(sorted(k for k in GENERATORS if k != "convex"))
+            if light_gens is not None:
+                gen = light_gens[j]
+            if j == 4 and light_gens is None:
                 gen = rng.choice(["noisy_factory", "xos"])       # every sampled game different: the order of the columns is visible
             cls = "superadditive" if not gen.startswith("xos") else rng.choice(["superadditive", "sam_apx_1"])
             inst = ModelInstance(number_of_players=3, game_class=cls, game_generator=gen, gap_function=rng.choice(["exploitability", "l1_norm", "l2_norm"]),
                                  run_steps_limit=rng.randint(1, 4 if cmd == "best_states" else 3), model_dir=root, unique_name=name, seed=seed + j, parallel_environments=1)
             ns = Namespace(func=print, solver=rng.choice(["greedy", "largest", "random"]), solve_repetitions=rng.randint(1, 4),
                            sampling_repetitions=rng.randint(1, 3), eval_repetitions=rng.randint(1, 2), model_dir=root, unique_name=name, seed=seed + j)
-            if j == 4:     # several evaluation repetitions of several sampled games each (seed C19-e: columns interleaved)
+            if j in (0, 3) or light_gens is not None:
+                ns.solve_repetitions = rng.randint(2, 4)
+                ns.solver = rng.choice(["greedy", "largest", "greedy_worst", "random"]) if light_gens is None else ["greedy", "largest", "greedy_worst"][(j + tid) % 3]
+            if j == 4 and light_gens is None:     # several evaluation repetitions of several sampled games each (seed C19-e: columns interleaved)
                 ns.sampling_repetitions, ns.eval_repetitions = rng.randint(2, 3), rng.randint(2, 3)
             captured.clear()
             exc = ""
@@ -267,6 +279,12 @@ def main():
     for j in range(a.commands):
         tid += 1
         traces.append(command_trace(tid, rng, root, a.seed * 31 + j))
+    if a.commands:
+        # the solve command once on EVERY registered generator (several repetitions, the solvers in turn), data.json only
+        names = sorted(k for k in GENERATORS if k != "convex")
+        for lo in range(0, len(names), 10):
+            tid += 1
+            traces.append(command_trace(tid, rng, root, a.seed * 31 + 100 + lo, light_gens=names[lo:lo + 10]))
     shutil.rmtree(root, ignore_errors=True)
     path = a.out + "_save.json"
     D.dump(path, {"traces": traces})
